@@ -18,7 +18,7 @@ RULE = ("fixed item set per VERIF_SEED replayed in N processes (distinct hash se
         "optimized SQL differs from the input (a rule fired); distinct = distinct (item, API)")
 ASSUMPTIONS = ["exceptions are outputs too: their class and message must be identical everywhere"]
 SPEC = {
-    "quick": {"shards": 12, "time_cap": 170, "items": 1500},
+    "quick": {"shards": 12, "time_cap": 170, "items": 900},
     "thorough": {"shards": 48, "time_cap": 1500, "items": 2500},
 }
 PAIRS = [("", "duckdb"), ("duckdb", "sqlite"), ("postgres", "mysql"), ("snowflake", "bigquery"), ("", "tsql"), ("mysql", "postgres"),
@@ -46,6 +46,48 @@ def items(seed, n):
                 sql, kind = mutate(rng, sql), "mutated"
         out.append({"id": i, "sql": sql, "kind": kind, "schema": sqlgen.sqlglot_schema(tables), "pair": PAIRS[i % len(PAIRS)]})
     return out
+
+
+# a shared mixed-case schema in which spellings serve as table and as column names: a long-lived MappingSchema
+# must answer the same whatever was asked before (history) and whatever the process
+CASE_SCHEMA = {"ds": {"Orders": {"Orders": "INT64", "Region": "STRING", "Qty": "INT64"},
+                      "Region": {"Region": "STRING", "Name": "STRING"},
+                      "Qty": {"Orders": "INT64", "userId": "INT64"}}}
+CASE_ITEMS = [("qualify", "SELECT * FROM ds.Orders"), ("qualify", "SELECT * FROM ds.Region"), ("qualify", "SELECT * FROM ds.Qty"),
+              ("qualify", "SELECT Region, Qty FROM ds.Orders"), ("qualify", "SELECT o.Region, r.Name FROM ds.Orders AS o JOIN ds.Region AS r ON o.Region = r.Region"),
+              ("names", "ds.Orders"), ("names", "ds.Region"), ("names", "ds.Qty"), ("type", "ds.Orders", "Region"), ("type", "ds.Qty", "userId"),
+              ("has", "ds.Region", "Name"), ("has", "ds.Orders", "orders"), ("names", "Orders"), ("names", "Region")]
+CASE_DIALECTS = ["bigquery", "snowflake", "duckdb", "mysql"]
+
+
+def case_schema_digests(order_rng):
+    """every (dialect, item) answered by one long-lived schema per dialect, in this process's own order, and by a fresh one"""
+    import sqlglot
+    from sqlglot.optimizer.qualify import qualify
+    from sqlglot.schema import MappingSchema
+
+    def ask(schema, d, it):
+        if it[0] == "qualify":
+            return qualify(sqlglot.parse_one(it[1], read=d), schema=schema, dialect=d).sql(d)
+        if it[0] == "names":
+            return list(schema.column_names(it[1]))
+        if it[0] == "type":
+            return schema.get_column_type(it[1], it[2]).sql()
+        return schema.has_column(it[1], it[2])
+
+    out, mismatches = {}, []
+    for d in CASE_DIALECTS:
+        live = MappingSchema(CASE_SCHEMA, dialect=d)
+        order = list(range(len(CASE_ITEMS)))
+        order_rng.shuffle(order)
+        for k in order:
+            it = CASE_ITEMS[k]
+            a = _digest(lambda: ask(live, d, it))
+            b = _digest(lambda: ask(MappingSchema(CASE_SCHEMA, dialect=d), d, it))
+            out[f"case:{d}:{k}"] = a
+            if a != b:
+                mismatches.append((d, it))
+    return out, mismatches
 
 
 def _digest(fn):
@@ -133,6 +175,11 @@ def worker(ctx):
                 ctx.nt([it["id"], "optimize"])
         digests[it["id"]] = out
         ctx.count("items_processed")
+    case_d, case_mism = case_schema_digests(random.Random(f"{ctx.seed}:C15:caseorder:{ctx.shard}"))
+    digests["case-schema"] = case_d
+    ctx.count("case_schema_answers", len(case_d))
+    for d, it in case_mism[:3]:
+        ctx.violation(f"reused-schema-differs-from-fresh:{it[0]}:{d}", {"dialect": d, "item": list(it)}, {"dialect": d, "item": list(it)})
     ctx.extra["digests"] = digests
     ctx.extra["hashseed"] = __import__("os").environ.get("PYTHONHASHSEED")
     ctx.extra["shard"] = ctx.shard
